@@ -6,22 +6,22 @@ CRYPTO_TB = ["SHA-256/512 are Section variables in the theorems (collision disju
 
 PROPS = {
     "C01": {"coq": "Properties/C01.v", "params": ["Proofs/ParamsSxg.vo"], "gens": ["C01"], "trusted_base": CRYPTO_TB},
-    "C02": {"coq": "Properties/C02.v", "params": ["Proofs/ParamsSxg.vo"], "gens": ["C02"], "trusted_base": CRYPTO_TB},
+    "C02": {"coq": "Properties/C02.v", "coq_extra": ["Properties/C02Truncation.v"], "params": ["Proofs/ParamsSxg.vo"], "gens": ["C02"], "trusted_base": CRYPTO_TB},
     "C03": {"coq": "Properties/C03.v", "params": ["Proofs/ParamsBundle.vo"], "gens": ["C03"]},
     "C04": {"coq": "Properties/C04.v", "params": ["Proofs/ParamsBundle.vo"], "gens": ["C04"]},
-    "C05": {"coq": "Properties/C05.v", "params": ["Proofs/ParamsBundle.vo"], "gens": ["C05"]},
+    "C05": {"coq": "Properties/C05.v", "coq_extra": ["Properties/C05Truncation.v"], "params": ["Proofs/ParamsBundle.vo"], "gens": ["C05"]},
     "C06": {"coq": "Properties/C06.v", "params": ["Proofs/ParamsBundle.vo"], "gens": ["C06", "C06x"], "trusted_base": CRYPTO_TB},
     "C07": {"coq": "Properties/C07.v", "params": ["Proofs/ParamsIB.vo"], "gens": ["C07"], "trusted_base": CRYPTO_TB, "bins": True},
     "C08": {"coq": "Properties/C08.v", "params": ["Proofs/ParamsSxg.vo"], "gens": ["C08"], "trusted_base": CRYPTO_TB},
     "C09": {"coq": "Properties/C09.v", "params": ["Proofs/ParamsSxg.vo"], "gens": ["C09"], "trusted_base": CRYPTO_TB},
     "C10": {"coq": "Properties/C10.v", "gens": ["C10", "C05", "C15", "C16", "C06x"]},
     "C11": {"coq": "Properties/C11.v", "gens": ["C11"]},
-    "C12": {"coq": "Properties/C12.v", "gens": ["C12"]},
+    "C12": {"coq": "Properties/C12.v", "coq_extra": ["Properties/C12Truncation.v"], "gens": ["C12"]},
     "C13": {"coq": "Properties/C13.v", "gens": ["C13"]},
     "C14": {"coq": "Properties/C14.v", "params": ["Proofs/ParamsMice.vo"], "gens": ["C14"], "trusted_base": CRYPTO_TB},
     "C18": {"coq": "Properties/C18.v", "gens": ["C18"], "race": True},
     "C19": {"coq": "Properties/C19.v", "gens": ["C19"]},
-    "C17": {"coq": "Properties/C17.v", "params": ["Proofs/ParamsCC.vo"], "gens": ["C17"]},
+    "C17": {"coq": "Properties/C17.v", "coq_extra": ["Properties/C17Truncation.v"], "params": ["Proofs/ParamsCC.vo"], "gens": ["C17"]},
     "C16": {"coq": "Properties/C16.v", "gens": ["C16"]},
     "C15": {"coq": "Properties/C15.v", "params": ["Proofs/ParamsMice.vo"], "gens": ["C15"], "trusted_base": CRYPTO_TB},
     "C20": {"coq": "Properties/C20.v", "gens": ["C20"], "bins": True},
